@@ -10,3 +10,4 @@ import NormModel.Properties.C11
 #print axioms Norm.C11.char_octal_valid
 #print axioms Norm.C11.char_hex_valid
 #print axioms Norm.C11.string_valid
+#print axioms Norm.C11.string_units_valid
